@@ -151,7 +151,7 @@ type layoutCase struct {
 // layout replays LexLayout.tla: all separator choices of one lexeme list must give the same (kind, value) sequence.
 func layout(run *core.Run, variants int) {
 	r := core.MustTLC(core.TLCOpts{Spec: "LexLayout", Cfg: "LexLayout_2.cfg", Timeout: 20 * time.Minute})
-	run.AddTLC(r.Stat("layout independence on the reference lexer: WellFormedLexemes, LayoutIndependence, SeparableIsEnough over all pairs of 61 lexemes x 9 separators"))
+	run.AddTLC(r.Stat("layout independence on the reference lexer: WellFormedLexemes, LayoutIndependence, SeparableIsEnough over all pairs of 67 lexemes x 9 separators"))
 	if len(r.Cases) == 0 {
 		core.Fatalf("LexLayout printed no cases")
 	}
@@ -193,6 +193,35 @@ func layout(run *core.Run, variants int) {
 			}
 			run.Nontrivial("layout" + line + fmt.Sprint(v))
 			all = append(all, pending{c, key, stream, txt.S})
+		}
+		// Expected of LexLayout.tla: the stream is the lexemes' own tokens in order, each as it is tokenized alone
+		alone := map[string]string{}
+		own := func(l []string) string {
+			k := fmt.Sprint(l)
+			if s, ok := alone[k]; ok {
+				return s
+			}
+			tk, _ := tokenizer.New()
+			toks, err := tk.Tokenize([]byte(lexconc.Concretise(l, int(run.Seed)+v).S))
+			s := "ERR:" + fmt.Sprint(err)
+			if err == nil && len(toks) > 0 {
+				s = ops.TokString(toks[:len(toks)-1], false)
+			}
+			alone[k] = s
+			return s
+		}
+		for _, p := range all {
+			if len(p.c.Sp) == 1 && len(p.c.Sp[0]) == 1 && p.c.Sp[0][0] == "sp" && !strings.HasPrefix(p.stream, "ERR:") {
+				exp := ""
+				for _, l := range p.c.Lx {
+					exp += own(l)
+				}
+				exp += ops.TokString([]models.TokenWithSpan{{}}, false) // the end marker
+				if p.stream != exp {
+					run.Violate(core.Violation{Sig: "token-depends-on-neighbours", Clause: "each element is read as it is read alone: kinds and values do not depend on the elements before it",
+						Case: map[string]any{"lexemes": p.c.Lx, "text": p.text}, Observe: p.stream, Expect: exp})
+				}
+			}
 		}
 		for _, p := range all {
 			want, ok := ref[p.key]
